@@ -30,11 +30,6 @@ Definition pf_numToLaunch (c : pfcfg) : Z :=
 Definition pf_tail (c : pfcfg) : list (Z * Z) :=
   let d := pf_decide c in if d_hasTail d then [(d_trimmedEnd d, pf_e c)] else [].
 
-(* explicit-chunk-overflow-64bit (finding): with an explicit chunk size, numChunks = (size + chunk - 1) / chunk is
-   computed in size_type; when size + chunk does not fit, the sum overflows (numChunks becomes 0 for uint64) *)
-Definition c12_chunkovf_domain (c : pfcfg) : bool :=
-  negb (pf_chunk c =? 0) && negb (pf_chunk c =? kmax (kind_of (pf_kn c))) && (2 ^ 63 <=? pf_e c - pf_s c + pf_chunk c).
-
 (* ------------------------------------------------------------------ the dynamic implementation *)
 Record dyncfg := DC {
   dc_k : ikind; dc_s : Z; dc_e : Z;          (* parRange.start, parRange.end (= trimmedEnd) *)
